@@ -749,6 +749,12 @@ Proof.
       * intros k' Hk. apply sd_set_lookup_other, Hk.
 Qed.
 
+Corollary symx_setdefault_absent_is_set w bi k e :
+  lookup k (symx w bi) = None -> step' w (OSymxSetdefault bi k e) = step' w (OSymxSet bi k e).
+Proof.
+  intros Hn. apply dict_has_lookup in Hn. unfold step'. cbn [step]. rewrite Hn. reflexivity.
+Qed.
+
 (* d.update(kvs): the last value given for a key wins (`lookup k (rev kvs)`, see lookup_rev_last / lookup_rev_None) *)
 Theorem symx_update_spec w bi kvs :
   let o := OSymxUpdate bi kvs in
@@ -975,40 +981,38 @@ Proof. intros Hnd Hs. apply symx_over_NoDup; [exact Hnd|]. intros bi _. apply Hs
 
 (* ---- the envelope at section scope ---- *)
 
-Section SectionEnvelope.
-  Variables (w : world) (s : id) (q : qrange) (bis : list id).
-  (* what sec_bis_on reports (LookupProofs.sec_bis_on_exact, `on_spec` unfolded) *)
-  Hypothesis Hbis : forall bi, In bi bis <->
+(* what sec_bis_on reports (LookupProofs.sec_bis_on_exact, with `on_spec` unfolded) *)
+Definition bis_on_spec (w : world) (s : id) (q : qrange) (bis : list id) : Prop :=
+  forall bi, In bi bis <->
     In bi (kids w s) /\ exists a, naddr (getn w bi) = Some a /\
       (0 <? nsize (getn w bi)) && (Z.max (qstart q) a <? Z.min (qstop q) (a + nsize (getn w bi))) = true.
 
-  (* every reported triple is a stored expression of an interval of s, at an address in q *)
-  Theorem sec_symx_sound bi k e :
-    In (bi, k, e) (symx_over w bis q) ->
-    In bi (kids w s) /\ In (k, e) (symx w bi) /\
-    exists a, naddr (getn w bi) = Some a /\ in_q (a + k) q = true.
-  Proof.
-    intros H. apply symx_over_In in H. destruct H as (Hb & Hin & Ha).
-    apply Hbis in Hb. destruct Hb as [Hk _]. split; [exact Hk|]. split; [exact Hin|exact Ha].
-  Qed.
+(* every reported triple is a stored expression of an interval of s, at an address in q *)
+Theorem sec_symx_sound w s q bis (Hbis : bis_on_spec w s q bis) bi k e :
+  In (bi, k, e) (symx_over w bis q) ->
+  In bi (kids w s) /\ In (k, e) (symx w bi) /\
+  exists a, naddr (getn w bi) = Some a /\ in_q (a + k) q = true.
+Proof.
+  intros H. apply symx_over_In in H. destruct H as (Hb & Hin & Ha).
+  apply Hbis in Hb. destruct Hb as [Hk _]. split; [exact Hk|]. split; [exact Hin|exact Ha].
+Qed.
 
-  (* every stored expression inside the declared extent of its interval, at an address in q, is reported *)
-  Theorem sec_symx_complete_inside bi k e a :
-    In bi (kids w s) -> In (k, e) (symx w bi) -> naddr (getn w bi) = Some a ->
-    in_q (a + k) q = true -> 0 <= k < nsize (getn w bi) ->
-    In (bi, k, e) (symx_over w bis q).
-  Proof.
-    intros Hk Hin Ha Hq Hext. apply symx_over_In. split; [|split; [exact Hin|exists a; split; [exact Ha|exact Hq]]].
-    apply Hbis. split; [exact Hk|]. exists a. split; [exact Ha|].
-    unfold in_q in Hq. apply andb_true_iff in Hq. destruct Hq as [Hq _].
-    apply andb_true_iff in Hq. destruct Hq as [Hq1 Hq2].
-    apply Z.leb_le in Hq1. apply Z.ltb_lt in Hq2.
-    apply andb_true_iff. split; [apply Z.ltb_lt; lia|apply Z.ltb_lt; lia].
-  Qed.
+(* every stored expression inside the declared extent of its interval, at an address in q, is reported *)
+Theorem sec_symx_complete_inside w s q bis (Hbis : bis_on_spec w s q bis) bi k e a :
+  In bi (kids w s) -> In (k, e) (symx w bi) -> naddr (getn w bi) = Some a ->
+  in_q (a + k) q = true -> 0 <= k < nsize (getn w bi) ->
+  In (bi, k, e) (symx_over w bis q).
+Proof.
+  intros Hk Hin Ha Hq Hext. apply symx_over_In. split; [|split; [exact Hin|exists a; split; [exact Ha|exact Hq]]].
+  apply Hbis. split; [exact Hk|]. exists a. split; [exact Ha|].
+  unfold in_q in Hq. apply andb_true_iff in Hq. destruct Hq as [Hq _].
+  apply andb_true_iff in Hq. destruct Hq as [Hq1 Hq2].
+  apply Z.leb_le in Hq1. apply Z.ltb_lt in Hq2.
+  apply andb_true_iff. split; [apply Z.ltb_lt; lia|apply Z.ltb_lt; lia].
+Qed.
 
-  Theorem sec_symx_NoDup : NoDup bis -> SymxSorted w -> NoDup (symx_over w bis q).
-  Proof. apply symx_over_NoDup_sorted. Qed.
-End SectionEnvelope.
+Theorem sec_symx_NoDup w (q : qrange) bis : NoDup bis -> SymxSorted w -> NoDup (symx_over w bis q).
+Proof. apply symx_over_NoDup_sorted. Qed.
 
 (* sec_symx_at is that composition over the intervals reported by sec_bis_on, in the world it returns *)
 Theorem sec_symx_at_unfold w s q :
@@ -1030,9 +1034,7 @@ Qed.
 
 (* the envelope stated directly on sec_symx_at w s q, all in terms of the world w before the lookup *)
 Theorem sec_symx_at_envelope w s q :
-  (forall bi, In bi (snd (sec_bis_on w s q)) <->
-     In bi (kids w s) /\ exists a, naddr (getn w bi) = Some a /\
-       (0 <? nsize (getn w bi)) && (Z.max (qstart q) a <? Z.min (qstop q) (a + nsize (getn w bi))) = true) ->
+  bis_on_spec w s q (snd (sec_bis_on w s q)) ->
   let r := snd (sec_symx_at w s q) in
   (forall bi k e, In (bi, k, e) r ->
      In bi (kids w s) /\ In (k, e) (symx w bi) /\ exists a, naddr (getn w bi) = Some a /\ in_q (a + k) q = true) /\
@@ -1068,6 +1070,7 @@ Print Assumptions symx_set_spec.
 Print Assumptions symx_del_spec.
 Print Assumptions symx_popitem_spec.
 Print Assumptions symx_setdefault_spec.
+Print Assumptions symx_setdefault_absent_is_set.
 Print Assumptions symx_update_spec.
 Print Assumptions symx_clear_spec.
 Print Assumptions symx_assign_spec.
